@@ -612,7 +612,13 @@ class Executor:
         if a is b:
             return a
         if isinstance(a, BV) and isinstance(b, BV):
-            return BV(z3.If(c, a.e, b.e), a.bits, a.signed)
+            ae, be = a.e, b.e
+            if z3.is_int(ae) != z3.is_int(be):  # mixed flavours: bring the mathematical one to bits
+                if z3.is_int(ae):
+                    ae = z3.Int2BV(ae, b.bits)
+                else:
+                    be = z3.Int2BV(be, a.bits)
+            return BV(z3.If(c, ae, be), a.bits, a.signed)
         if isinstance(a, BoolV) and isinstance(b, BoolV):
             return BoolV(z3.If(c, a.e, b.e))
         if isinstance(a, BigI) and isinstance(b, BigI):
@@ -748,6 +754,14 @@ class Executor:
             it = self.int_ty(ty)
             if it:
                 return self.mk_int(int(m.group(2), 16), *it)
+        m = re.match(r"^\{(alloc\d+): &(.*)\}$", c)
+        if m:
+            for mod in self.modules:
+                nm = mod.static_allocs.get(m.group(1))
+                if nm and nm in mod.promoteds:
+                    v = self.eval_const_item(st, mod.promoteds[nm])
+                    return self.alloc(st, v, False)
+            raise Unsupported(f"static allocation {c}")
         m = re.match(r"^ZeroSized: (\{closure@.*\})$", c)
         if m:
             return Closure(m.group(1), ())
